@@ -376,3 +376,39 @@ func TestC18_Random(t *testing.T) {
 	})
 	checkRegistry(t, "after random")
 }
+
+
+// TestC18_Lifecycle: the registry is idempotent across a Refresh/Destroy cycle too: a name
+// registered before keeps its tag object and the list of all tags is unchanged by the cycle.
+// (Runs last: the other tests of this package need a process that has not been configured.)
+func TestC18_Lifecycle(t *testing.T) {
+	if vk.ReplayCase() != "" {
+		t.Skip()
+	}
+	initModel()
+	names := []string{"_c18_life", "c18x_a_b_c", "_app_def", "zz9"}
+	before := map[string]*log.Tag{}
+	for _, n := range names {
+		before[n] = log.RegisterTag(n)
+		modelSet[n] = true
+		model[n] = before[n]
+	}
+	list := slices.Clone(log.GetAllTags())
+	for round := 0; round < 3; round++ {
+		if err := log.Refresh(map[string]string{"appender.d.type": "Discard"}); err != nil {
+			t.Fatalf("VERIF-INCONCLUSIVE C18: %v", err)
+		}
+		log.Destroy()
+		for _, n := range names {
+			vk.Eval()
+			if again := log.RegisterTag(n); again != before[n] {
+				failCase(t, n, fmt.Sprintf("after %d Refresh/Destroy cycle(s) registering an accepted name again returned a different tag", round+1))
+			}
+		}
+		if got := log.GetAllTags(); !slices.Equal(got, list) {
+			failCase(t, "", "a Refresh/Destroy cycle changed the list of all tags")
+		}
+	}
+	vk.NonTrivial("lifecycle")
+	checkRegistry(t, "after lifecycle")
+}
